@@ -267,7 +267,7 @@ def shard(n, seed, known, big):
 
 def run(ctx):
     jobs = [(k, core.subseed(ctx.seed, "s", i), ctx.known_sigs, not ctx.quick)
-            for i, k in enumerate(core.split(ctx.n(480, 8000), 16))]
+            for i, k in enumerate(core.split(ctx.n(2400, 24000), 16))]
     stats = core.Stats()
     for s in core.pmap(shard, jobs):
         stats.merge(s)
